@@ -147,6 +147,13 @@ Qed.
 Lemma mod_small_W x : 0 <= x < W -> x mod W = x.
 Proof. intros H. apply Z.mod_small. exact H. Qed.
 
+Lemma sf_assign lv v o : sem_fun lv (mkI "assign" [OLit v] [o]) = Some (fun c => oval lv c (OLit v)).
+Proof. reflexivity. Qed.
+Lemma sf_not lv a o : sem_fun lv (mkI "not" [OLit a] [o]) = Some (fun c => w_not (oval lv c (OLit a))).
+Proof. reflexivity. Qed.
+Lemma sf_shl lv a b o : sem_fun lv (mkI "shl" [OLit a; OLit b] [o]) = Some (fun c => w_shl (oval lv c (OLit b)) (oval lv c (OLit a))).
+Proof. reflexivity. Qed.
+
 Lemma lit_inst_equiv lv ins ins' : lit_inst ins = Ok ins' -> iequiv lv ins ins'.
 Proof.
   unfold lit_inst. destruct ins as [op args outs]. cbn [i_op i_args i_outs].
@@ -159,12 +166,12 @@ Proof.
   destruct (k =? 1) eqn:K1.
   { apply Z.eqb_eq in K1. destruct (S1 K1) as [Ra Ea]. intros H. injection H as <-. right.
     split; [reflexivity | split; [reflexivity | split; [reflexivity|]]].
-    intros g g' c Sg Sg'. cbn in Sg, Sg'. injection Sg as <-. injection Sg' as <-.
+    intros g g' c Sg Sg'. rewrite sf_assign in Sg. rewrite sf_not in Sg'. injection Sg as <-. injection Sg' as <-.
     cbn [oval]. rewrite (mod_small_W a Ra). symmetry. exact Ea. }
   destruct (k =? 2) eqn:K2.
   { apply Z.eqb_eq in K2. destruct (S2 K2) as [Ra [Rb Eb]]. intros H. injection H as <-. right.
     split; [reflexivity | split; [reflexivity | split; [reflexivity|]]].
-    intros g g' c Sg Sg'. cbn in Sg, Sg'. injection Sg as <-. injection Sg' as <-.
+    intros g g' c Sg Sg'. rewrite sf_assign in Sg. rewrite sf_shl in Sg'. injection Sg as <-. injection Sg' as <-.
     cbn [oval]. rewrite (mod_small_W a Ra). rewrite (mod_small_W b) by (pose proof W_val; lia). symmetry. exact Eb. }
   intros H. injection H as <-. left. reflexivity.
 Qed.
